@@ -26,7 +26,7 @@ CHECKS = {
   design="DESIGN.md §6 C03"),
  "C04": dict(
   category="model_checking",
-  text="Seeded random histories on the real nb and async(+Class C) front-ends in all 9 regions (OTAA and ABP), with hostile network input: JoinAccepts with arbitrary DLSettings/RxDelay/CFList (incl. RFU types), MAC-command streams with boundary and random field values (incl. reserved ones and malformed tails), replays, forgeries, random bytes, oversize frames, radio faults. Every call runs under catch_unwind with an RNG draw budget, so a panic or hang becomes a trace event no action of MacTrace.tla matches; after every history step the device's complete projected state must equal the specification's. Application misuse the type system allows is included (data on port 0, 200-255 byte payloads, set_datarate to any value 0..15, calls in the wrong nb state). Enumerated on top of the random histories (the property's 'exhaustive over an event alphabet'): the nb state machine under free-form event sequences (a canonical prefix into each state - Idle, transmitting, waiting for / receiving in RX1 and RX2, for data and join - followed by every sequence of 2 / thorough 3 events over {send answered Done/Txing, join, TxDone, timeout, timeout with radio error, authentic / MIC-broken / oversize frame, JoinAccept, stray and failure radio events}); every async procedure (send|join) x RX1 outcome x RX2 outcome x fault position 0..9, each followed by a second procedure or (Class C) by listening outside a procedure with a frame of each kind, with and without Class C; and a single-channel walk (every channel index once the only enabled one). Beyond the default build: the device compiled with its certification-protocol handler (cargo feature `certification`, FPort 224) receives every TS009 command, well-formed and malformed, on all three front-ends and is held to CertTrace.tla (no panic/hang, every transmitted frame a well-formed uplink with valid MIC and strictly increasing counter, still transmits afterwards), and every history that does not end in a listed panic is additionally held to the behaviour model of the handler in Mac.tla / MacTrace.tla (command walk, ADR bit, frame-type override on later uplinks, LinkCheckReq queued, answers transmitted at once on FPort 224 with exactly the expected payload on a legal channel / data rate / commanded power, counters, what reaches the application); the handler's responses that the public API cannot represent panic - open finding S33, one signature per front-end and command. Two further open findings (channel selection without a usable channel / undefined data rate; send() panicking on port-0 data or oversize payloads) are listed in known_findings.json and reported as KNOWN-FINDING.",
+  text="Seeded random histories on the real nb and async(+Class C) front-ends in all 9 regions (OTAA and ABP), with hostile network input: JoinAccepts with arbitrary DLSettings/RxDelay/CFList (incl. RFU types), MAC-command streams with boundary and random field values (incl. reserved ones and malformed tails), replays, forgeries, random bytes, oversize frames, radio faults. Every call runs under catch_unwind with an RNG draw budget, so a panic or hang becomes a trace event no action of MacTrace.tla matches; after every history step the device's complete projected state must equal the specification's. Application misuse the type system allows is included (data on port 0, 200-255 byte payloads, set_datarate to any value 0..15, calls in the wrong nb state). Enumerated on top of the random histories (the property's 'exhaustive over an event alphabet'): the nb state machine under free-form event sequences (a canonical prefix into each state - Idle, transmitting, waiting for / receiving in RX1 and RX2, for data and join - followed by every sequence of 2 / thorough 3 events over {send answered Done/Txing, join, TxDone, timeout, timeout with radio error, authentic / MIC-broken / oversize frame, JoinAccept, stray and failure radio events}); every async procedure (send|join) x RX1 outcome x RX2 outcome x fault position 0..9, each followed by a second procedure or (Class C) by listening outside a procedure with a frame of each kind, with and without Class C; and a single-channel walk (every channel index once the only enabled one). Beyond the default build: the device compiled with its certification-protocol handler (cargo feature `certification`, FPort 224) receives every TS009 command, well-formed and malformed, on all three front-ends and is held to CertTrace.tla (no panic/hang, every transmitted frame a well-formed uplink with valid MIC and strictly increasing counter, still transmits afterwards), and every history that does not end in a listed panic is additionally held to the behaviour model of the handler in Mac.tla / MacTrace.tla (command walk, ADR bit, frame-type override on later uplinks, LinkCheckReq queued, answers transmitted at once on FPort 224 with exactly the expected payload on a legal channel / data rate / commanded power, counters, what reaches the application); the handler's responses that the public API cannot represent panic - open finding S33, one signature per front-end and command. The remote multicast setup handler (feature `multicast`, FPort 200) gets every TS005 setup command, well-formed, truncated, unknown and repeated up to 242 times per frame, under the same CertTrace.tla clauses (this found and fixed S35, a panic, and S36, a frame-counter reuse). Two further open findings (channel selection without a usable channel / undefined data rate; send() panicking on port-0 data or oversize payloads) are listed in known_findings.json and reported as KNOWN-FINDING.",
   note='Trusted: Mac.tla (intended MAC behaviour, DESIGN Appendix B), Regions.tla (regional tables; disputed entries take the laxer reading), Codec.tla/Aes.tla/Cmac.tla (decide authenticity of every delivered frame and decode every uplink), TLC, the scripted radios/timer/RNG of the harness (no oracle logic). Histories are seeded-random (VERIF_SEED), not exhaustive; the exhaustive part is the named MC config over scaled-down constants.',
   technique="explicit TLA+ specification (Mac.tla, Regions.tla, Codec.tla) checked with TLC: " + 'MacTrace.tla' + "; implementation traces validated against it",
   design="DESIGN.md §6 C04"),
